@@ -683,6 +683,20 @@ def h_roundtrip(d: Decl, props):
     return Harness(d, 'serde round trip', props, body, clause='forall obtainable v: deserialize(serialize(v)) == Ok(v) through a format that round-trips the inner value')
 
 
+def h_roundtrip_concrete(d: Decl, props, lit, tag):
+    """round trip of one concrete value (used where the symbolic round trip may time out)"""
+    S = concrete_self(d)
+    I = concrete_inner(d)
+    body = ('        let raw: %s = %s;\n' % (I, lit) + obtain(d, 'v', 'raw') +
+            '        unsafe { sfmt::EXPECT_NAME = "%s"; sfmt::SER_FAIL = false; sfmt::NEWTYPE_CALLS = 0; }\n' % d.name +
+            '        let rec = serde::Serialize::serialize(&v, sfmt::RecSer { depth: 0 }).unwrap();\n'
+            '        let inner_back: %s = rec.bits as %s;\n' % (I, I) +
+            '        let r = <%s as serde::Deserialize>::deserialize(sfmt::Fmt { v: inner_back, ok: true, mode: 0 });\n' % S +
+            '        match r { Ok(w) => assert!(w.into_inner() == raw, "deserialize(serialize(v)) == v"), Err(_) => assert!(false, "a serialized valid value must deserialize") }\n')
+    return Harness(d, 'serde round trip (%s)' % tag, props, body, bounded='one concrete value: %s' % lit,
+                   clause='deserialize(serialize(v)) == Ok(v)')
+
+
 def h_roundtrip_string(d: Decl, props, lit, tag, bounded):
     S = concrete_self(d)
     body = ('        let raw = String::from(%s);\n' % lit + obtain(d, 'v', 'raw.clone()') +
@@ -1048,6 +1062,7 @@ def kani_run_harnesses(out, prop, tag, decls, harnesses, extra_items='', feature
         return
     solver_s = 0.0
     nb = 0
+    timed_out_decls = {}
     for h in harnesses:
         r = res.get(h.name)
         if r is None or r['status'] == 'UNKNOWN':
@@ -1075,6 +1090,7 @@ def kani_run_harnesses(out, prop, tag, decls, harnesses, extra_items='', feature
             fc = '; '.join(r['failed'])
             if 'CBMC timed out' in r['text'] or 'CBMC failed' in fc or 'out of memory' in r['text'].lower():
                 out.undecided.append('kani harness %s: solver timeout / tool failure (undecided, not a violation)' % h.name)
+                timed_out_decls.setdefault(h.decl.id, h.decl)
                 if not h.bounded:
                     out.obligations -= 1
                 continue
@@ -1091,6 +1107,22 @@ def kani_run_harnesses(out, prop, tag, decls, harnesses, extra_items='', feature
                 continue
             out.failed.append({'key': h.key, 'backend': 'kani', 'message': fc[:500], 'detail': r['text'][-4000:],
                                'decl': h.decl.id, 'decl_obj': h.decl, 'features': ('serde', 'arbitrary')})
+    # a solver timeout is undecided, never a violation; as a bounded, labelled stand-in the real code of
+    # (a few of) those declarations is executed on boundary inputs and only a concrete failing input counts
+    if timed_out_decls:
+        from . import witness
+        from .main import PROP_ENTRIES
+        for d in list(timed_out_decls.values())[:4]:
+            try:
+                wit, wlog = witness.run_witness(d)
+            except Exception as e:
+                wit = None
+            bad = [w for w in (wit or []) if w.get('entry') in PROP_ENTRIES.get(prop, ())]
+            if bad:
+                out.failed.append({'key': '%s::%s(concrete run, Kani timed out)' % (d.id, bad[0]['entry']), 'backend': 'concrete-fallback (bounded)',
+                                   'message': 'real code disagrees with the reference on a concrete input', 'detail': json.dumps(bad[:3]),
+                                   'decl': d.id, 'decl_obj': d, 'witness': bad})
+        out.bounded.append('concrete fallback for %d declaration(s) whose Kani harness timed out (boundary inputs only)' % min(4, len(timed_out_decls)))
     kv = out.extra.setdefault('kani', {})
     kv.update({'harnesses': len(harnesses), 'bounded_harnesses': nb, 'declarations': len(decls),
                'solver_time_s': round(solver_s, 1), 'wall_s': round(time.time() - t0, 1)})
@@ -1237,6 +1269,9 @@ def harnesses_for(prop, tier, seed):
                 hs.append(h_serialize(d, [prop]))
                 if not d.sanitizers:
                     hs.append(h_roundtrip(d, [prop]))
+                if d.inner in ('i128', 'u128') and not d.has_validation:
+                    hs.append(h_roundtrip_concrete(d, [prop], '(1 as %s) << 70' % d.inner, '2^70'))
+                    hs.append(h_roundtrip_concrete(d, [prop], '%s::MAX' % d.inner, 'MAX'))
         B = 'bounded: concrete string documents only (symbolic strings do not finish in CBMC)'
         for d in sdecls:
             if prop == 'C04':
